@@ -133,15 +133,21 @@ def run(prop, tier):
         # a host whose long is 32 bits wide (LLP64; constants like 1UL behave as on every 32-bit target)
         from . import llp64
         bdir = os.path.join(core.ROOT, 'build', prop)
-        exel = llp64.build(bdir, os.path.join(bdir, 'gen'), core.build_native(os.path.join(bdir, 'native'), os.path.join(bdir, 'gen'), ['common.c', 'explore_fields.c']), 'explore_fields')
-        res = core.run_slices(exel, ['--suite', prop, '--tier', 'lite' if tier == 'quick' else 'quick'], timeout=timeout, result=res, tag='llp64 (32-bit long)')
+        try:
+            exel = llp64.build(bdir, os.path.join(bdir, 'gen'), core.build_native(os.path.join(bdir, 'native'), os.path.join(bdir, 'gen'), ['common.c', 'explore_fields.c']), 'explore_fields')
+            res = core.run_slices(exel, ['--suite', prop, '--tier', 'lite' if tier == 'quick' else 'quick'], timeout=timeout, result=res, tag='llp64 (32-bit long)')
+        except core.WorldUnavailable as e:
+            res.incomplete.append('world left out: ' + str(e))
     if prop == 'C12':
         alias_contexts(res, os.path.join(core.ROOT, 'build', prop))
     # an ILP32 host: pointers, size_t and long 32 bits wide, 64-bit integers aligned to four bytes, x87 arithmetic
     from . import ilp32
     bdir = os.path.join(core.ROOT, 'build', prop)
-    exei = ilp32.build(bdir, os.path.join(bdir, 'gen'), ['common.c', 'explore_fields.c'], 'explore_fields')
-    res = core.run_slices(exei, ['--suite', prop, '--tier', 'lite' if tier == 'quick' else 'quick'], timeout=timeout, result=res, tag='ilp32 (gcc -m32, freestanding)')
+    try:
+        exei = ilp32.build(bdir, os.path.join(bdir, 'gen'), ['common.c', 'explore_fields.c'], 'explore_fields')
+        res = core.run_slices(exei, ['--suite', prop, '--tier', 'lite' if tier == 'quick' else 'quick'], timeout=timeout, result=res, tag='ilp32 (gcc -m32, freestanding)')
+    except core.WorldUnavailable as e:
+        res.incomplete.append('world left out: ' + str(e))
     if prop == 'C03':
         # guard pages only watch headers that end at a page boundary; the instrumented build (every load/store of the
         # library hooked, see C16) checks each access against the header extent at every address residue mod 8
